@@ -18,7 +18,9 @@ Streams: (0) directed histories for the special cases the property names (a term
 removed, and then an extend with a typed fragment); (a) bounded-exhaustive op sequences over a pool of <= 3-atom
 structures (every deletion subset, every injective identity map, with / without coefficient tables);
 (b) random histories over structures of <= 30 atoms; (m) a malformed stream (incompatible extends, bad indices)
-compared model-vs-code only; (k) the KNOWN FINDING C09-coefficient-table-misaligned: histories with exactly one extend
+compared model-vs-code only; (al) aliasing probes: objects constructed from SHARED numpy arrays / from the attribute
+arrays of an existing object (also sprinkled over the random stream), then mutated one at a time — after every step of
+EVERY history all slots are checked and the slots the op did not write must be unchanged; (k) the KNOWN FINDING C09-coefficient-table-misaligned: histories with exactly one extend
 in which one consistent object uses ids of a kind without a coefficient table and the other brings a table — the
 normal oracle runs on them, its failure is attributed (tag "coefficient-table-misaligned") only when it arises at
 that extend and concerns the coefficient data of exactly that kind; model and code are still compared.
@@ -316,11 +318,64 @@ def guard_ok(dumps, op):
 
 # =============================================================================================== real code
 
-def apply_real(objs, op):
-    """run one op on the real objects (in place on the list `objs`); exceptions propagate"""
+def np_kwargs(aj):
+    """constructor keywords for the literal `aj` as NUMPY arrays (per-atom arrays, term arrays, type tables)"""
+    import numpy as np
+    rows = aj["atoms"]
+    ty = aj["types"]
+    kw = {"atom_types": np.array([r["ty"] for r in rows], dtype=int),
+          "positions": np.array([[float(core.unq(v)) for v in r["pos"]] for r in rows], dtype=float).reshape(len(rows), 3),
+          "charges": np.array([float(core.unq(r["q"])) for r in rows], dtype=float),
+          "groups": np.array([r["g"] for r in rows], dtype=int),
+          "atom_type_elements": np.array(list(ty["elem"])), "atom_type_labels": np.array(list(ty["label"])),
+          "atom_type_masses": np.array([float(core.unq(m)) for m in ty["mass"]], dtype=float),
+          "pair_coeffs": np.array(list(ty["pair"]))}
+    xl = aj["xlabels"]
+    kw["extra_atom_labels"] = list(xl["atom"])
+    if xl["atom"]:
+        kw["extra_atom_fields"] = np.array([r["x"] for r in rows], dtype=object).reshape(len(rows), len(xl["atom"]))
+    for k, tups, types, xf, xlab, coeffs in core.KINDS:
+        ts = aj["terms"][k]
+        kw[tups] = np.array([t["a"] for t in ts], dtype=int).reshape(len(ts), ARITY[k])
+        kw[types] = np.array([t["ty"] for t in ts], dtype=int)
+        kw[coeffs] = np.array(list(ty[k]))
+        kw[xlab] = list(xl[k])
+        if xl[k]:
+            kw[xf] = np.array([t["x"] for t in ts], dtype=object).reshape(len(ts), len(xl[k]))
+    if aj.get("cell") is not None:
+        kw["cell"] = np.array([[float(core.unq(v)) for v in row] for row in aj["cell"]], dtype=float)
+    return kw
+
+
+def attr_kwargs(o):
+    """constructor keywords taken straight from the attributes of an existing object (no copies made here)"""
+    kw = {"atom_types": o.atom_types, "positions": o.positions, "charges": o.charges, "groups": o.groups,
+          "atom_type_elements": o.atom_type_elements, "atom_type_labels": o.atom_type_labels,
+          "atom_type_masses": o.atom_type_masses, "pair_coeffs": o.pair_coeffs, "cell": o.cell,
+          "extra_atom_labels": o.extra_atom_labels, "extra_atom_fields": o.extra_atom_fields}
+    for k, tups, types, xf, xlab, coeffs in core.KINDS:
+        kw[tups], kw[types], kw[coeffs] = getattr(o, tups), getattr(o, types), getattr(o, coeffs)
+        kw[xlab], kw[xf] = getattr(o, xlab), getattr(o, xf)
+    return kw
+
+
+def apply_real(objs, op, cache=None):
+    """run one op on the real objects (in place on the list `objs`); exceptions propagate.
+    construct: from fresh python lists (default); "np": key -> from numpy arrays that are SHARED by every construct
+    of the history carrying the same key; "twin_of": slot -> from the attribute arrays of the object in that slot
+    (the literal "a" is then that object's dump). The model sees the same literal in all three cases."""
     k = op["k"]
     if k == "construct":
-        objs[op["dst"]] = core.atoms_from_json(op["a"])
+        from mofun import Atoms
+        if op.get("twin_of") is not None:
+            objs[op["dst"]] = Atoms(**attr_kwargs(objs[op["twin_of"]]))
+        elif op.get("np") is not None and op["a"]["atoms"]:
+            cache = cache if cache is not None else {}
+            if op["np"] not in cache:
+                cache[op["np"]] = np_kwargs(op["a"])
+            objs[op["dst"]] = Atoms(**cache[op["np"]])
+        else:
+            objs[op["dst"]] = core.atoms_from_json(op["a"])
     elif k == "copy":
         objs[op["dst"]] = objs[op["src"]].copy()
     elif k == "delete":
@@ -360,11 +415,13 @@ class Expect:
         self.atom = set()      # (charge, label, element, mass, group)
         self.pair = set()      # (charge, pair text)
         self.term = {k: set() for k in KINDS}   # (tag, coefficient text or None)
+        self.tatoms = {k: set() for k in KINDS}  # (tag, tuple of the charges of the atoms the term connects, in order)
 
     def copy(self):
         e = Expect()
         e.atom, e.pair = set(self.atom), set(self.pair)
         e.term = {k: set(v) for k, v in self.term.items()}
+        e.tatoms = {k: set(v) for k, v in self.tatoms.items()}
         return e
 
     def union(self, o):
@@ -397,6 +454,8 @@ def record(aj):
             c = xl.index(TAGCOL[k])
             for tm in aj["terms"][k]:
                 e.term[k].add((tm["x"][c], t[k][tm["ty"]] if tm["ty"] < len(t[k]) else None))
+                if all(0 <= x < len(aj["atoms"]) for x in tm["a"]):
+                    e.tatoms[k].add((tm["x"][c], tuple(aj["atoms"][x]["q"] for x in tm["a"])))
     return e
 
 
@@ -410,11 +469,22 @@ def transfer(exp, op, pre):
     elif k == "getitem":
         e = exp[op["src"]].copy()
         e.term = {kk: set() for kk in KINDS}     # by design a subset carries no terms
+        e.tatoms = {kk: set() for kk in KINDS}
         exp[op["dst"]] = e
     elif k == "extend":
         e = exp[op["dst"]].copy()
         e.union(exp[op["src"]])
         d, s = pre[op["dst"]], pre[op["src"]]
+        # the other's terms now connect, for every atom of the identity map, the atom of self it is identified with
+        m = dict((a, b) for a, b in op["map"])
+        for kk in KINDS:
+            xl = s["xlabels"][kk]
+            if TAGCOL[kk] in xl:
+                c = xl.index(TAGCOL[kk])
+                for tm in s["terms"][kk]:
+                    if tm["x"][c] != "." and all(0 <= x < len(s["atoms"]) for x in tm["a"]):
+                        e.tatoms[kk].add((tm["x"][c], tuple(d["atoms"][m[x]]["q"] if x in m else s["atoms"][x]["q"]
+                                                            for x in tm["a"])))
         for a, b in op["map"]:
             # identity map: the atom of self adopts the type of the other's atom (its charge and group stay)
             lab, el, m = resolve_atom(s, a)
@@ -498,6 +568,11 @@ def check_object(a, d, e):
                 return "%s %d carries tag %r that no term of this history was created with" % (k, j, tag)
             if t[k] and t[k][tm["ty"]] not in defs:
                 return "%s %d (tag %s) resolves to coefficient %r, defined with %r" % (k, j, tag, t[k][tm["ty"]], defs)
+            who = tuple(d["atoms"][x]["q"] for x in tm["a"])
+            if (tag, who) not in e.tatoms[k]:
+                want = sorted(x[1] for x in e.tatoms[k] if x[0] == tag)
+                return "%s %d (tag %s) now connects the atoms with identity tags %s, it was defined between %s" % (
+                    k, j, tag, list(who), [list(w) for w in want])
     return None
 
 
@@ -618,6 +693,7 @@ class Runner:
         self.objs = [None] * NSLOTS
         self.exp = [None] * NSLOTS
         self.lammps = lammps
+        self.npcache = {}
         if init:
             for i, aj in enumerate(init):
                 if aj is not None:
@@ -637,6 +713,7 @@ class Runner:
         r.dumps = list(self.dumps)
         r.lammps = self.lammps
         r.oracle_on = self.oracle_on
+        r.npcache = self.npcache
         return r
 
     def step(self, op, valid=True):
@@ -644,7 +721,7 @@ class Runner:
         pre = self.dumps
         try:
             with core.quiet():
-                apply_real(self.objs, op)
+                apply_real(self.objs, op, self.npcache)
         except Exception as ex:  # noqa
             bad = None
             if valid and self.oracle_on:
@@ -805,7 +882,16 @@ def rand_op(rng, run, tg, last_offsets):
     if kind == "construct" or not full:
         empty = [i for i in range(NSLOTS) if dumps[i] is None]
         dst = rng.choice(empty) if empty and rng.random() < 0.8 else rng.randrange(NSLOTS)
-        return {"k": "construct", "dst": dst, "a": rand_struct(rng, tg, nmax=rng.choice([3, 6, 8]))}
+        u = rng.random()
+        cands = [i for i in full if i != dst and dumps[i]["atoms"]]
+        if u < 0.3 and cands:
+            # a twin built from the attribute arrays of an existing object: later ops on either must not reach the other
+            j = rng.choice(cands)
+            return {"k": "construct", "dst": dst, "a": _deep(dumps[j]), "twin_of": j}
+        op = {"k": "construct", "dst": dst, "a": rand_struct(rng, tg, nmax=rng.choice([3, 6, 8]))}
+        if u < 0.6:
+            op["np"] = "r%d" % tg.n
+        return op
     s = rng.choice(full)
     d = dumps[s]
     n = len(d["atoms"])
@@ -1233,6 +1319,62 @@ def pool_pairs(ctx, quick):
     return pairs
 
 
+
+# =============================================================================================== aliasing probes
+
+def aliasing_history(rng):
+    """two objects constructed from the SAME numpy arrays, a third from the attribute arrays of an existing object,
+    then mutating ops (extend with an identity map, delete, pop) on one of them at a time: whatever is done to one
+    object, the others must stay exactly as they were (checked for all slots after every step)"""
+    tg = Tagger()
+    tables = rng.random() < 0.6
+    a = rand_struct(rng, tg, nmax=rng.choice([4, 6]), coeffs=tables, pair=tables)
+    while len(a["atoms"]) < 2:
+        a = rand_struct(rng, tg, nmax=6, coeffs=tables, pair=tables)
+    b = rand_struct(rng, tg, nmax=4, coeffs=tables, pair=tables, cell=False)
+    ops = [{"k": "construct", "dst": 0, "a": a, "np": "A"}, {"k": "construct", "dst": 1, "a": _deep(a), "np": "A"},
+           {"k": "construct", "dst": 2, "a": b, "np": "B"}]
+    run = Runner(None, lammps=False)
+    run.oracle_on = False
+    for op in ops:
+        run.step(op)
+    for _ in range(rng.randint(3, 6)):
+        d = run.dumps
+        c = rng.choice(["extend", "extend", "delete", "pop", "twin", "extend_twin"])
+        tgt = rng.choice([i for i in (0, 1, 3) if d[i] is not None])
+        n = len(d[tgt]["atoms"])
+        op = None
+        if c in ("extend", "extend_twin") and n and d[2]["atoms"] and compat(d[tgt], d[2]) and n + len(d[2]["atoms"]) <= MAXATOMS:
+            m = rand_map(rng, len(d[2]["atoms"]), n, big=True) or [[0, rng.randrange(n)]]
+            op = {"k": "extend", "dst": tgt, "src": 2, "offsets": None, "map": m}
+        elif c == "delete" and n > 1:
+            op = {"k": "delete", "slot": tgt, "idx": rng.sample(range(n), rng.randint(1, n - 1))}
+        elif c == "pop" and n > 1:
+            op = {"k": "pop", "slot": tgt, "i": rng.randint(-n, n - 1)}
+        elif c == "twin":
+            src = rng.choice([i for i in (0, 1) if d[i]["atoms"]] or [None])
+            if src is not None:
+                op = {"k": "construct", "dst": 3, "a": _deep(d[src]), "twin_of": src}
+        if op is None:
+            continue
+        ops.append(op)
+        res, _ = run.step(op)
+        if "err" in res:
+            break
+    return {"op": "hist", "init": [None] * NSLOTS, "ops": ops, "dump": "full"}
+
+
+def stream_aliasing(ctx, count, compare=True):
+    batch = []
+    for _ in range(count):
+        h = aliasing_history(ctx.rng)
+        out, k, what = run_history(h["init"], h["ops"])
+        account(ctx, h, out, k, what, "aliasing")
+        batch.append((h, out))
+    if compare:
+        compare_batch(ctx, batch)
+
+
 # =============================================================================================== known finding stream
 
 MISALIGNED_TAG = "coefficient-table-misaligned"
@@ -1347,6 +1489,7 @@ def run(ctx, oracle_only=False):
     cmp_ = not oracle_only
     stream_directed(ctx, cmp_)
     stream_misaligned(ctx, ctx.n(4, 30), cmp_)
+    stream_aliasing(ctx, ctx.n(30, 300), cmp_)
     pairs = pool_pairs(ctx, ctx.quick())
     if ctx.quick():
         stream_exhaustive(ctx, 2, pairs, limit=ctx.n(300, None), compare=cmp_)
@@ -1371,6 +1514,7 @@ def search(ctx):
     ctx.rule = RULE
     stream_directed(ctx, False)
     stream_misaligned(ctx, 10, False)
+    stream_aliasing(ctx, 150, False)
     pairs = pool_pairs(ctx, False)
     stream_exhaustive(ctx, 2, pairs, limit=None, compare=False)
     if not ctx.failures:
